@@ -87,7 +87,7 @@ let judge _name ins outs =
   let go = toks_with "" outs in
   let (m, td_o) = msg_of isreq "o" outs in
   (* any projected (hashed) token: oracle only, no byte-level model comparison *)
-  let big = List.exists (fun t -> let (_, v) = split1 '=' t in is_big v) outs in
+  let big = List.exists (fun t -> String.contains t '#') outs in
   (* ---------------- observation ---------------- *)
   let after = (try Some (msg_of isreq "a" outs) with Unrep _ -> None) in
   (match after with
@@ -97,9 +97,12 @@ let judge _name ins outs =
   let sec_err = List.exists (fun (_, v) -> String.contains v '!') (List.filter (fun (k, _) -> k <> "dec") sl) in
   let sections =
     if sl = [] || sec_err then None
-    else if List.mem_assoc "cat" sl then Some (((bytes_tok (get sl "cat"), []), []), bytes_tok (get sl "full"))
-    else Some (((chars_of_hex (get sl "h"), chars_of_hex (get sl "b")), chars_of_hex (get sl "t")),
-               chars_of_hex (get sl "full")) in
+    else
+      let full = get sl "full" in
+      let fullb = (match String.split_on_char '|' full with
+          | [a; mid; c] -> chars_of_hex a @ bytes_tok mid @ chars_of_hex c
+          | _ -> bytes_tok full) in
+      Some (((chars_of_hex (get sl "h"), bytes_tok (get sl "b")), chars_of_hex (get sl "t")), fullb) in
   let full_expected = (match model_reparse lg m with Some _ -> true | None -> false) in
   let rl = toks_with "r." outs in
   let reparse_obs =
@@ -142,6 +145,13 @@ let judge _name ins outs =
   else if List.length recs <> rec_n then
     VDisagree (Printf.sprintf "records model=%d real=%d" (List.length recs) rec_n)
   else
+  let cap_bad =
+    (match recs, List.assoc_opt "cap" go with
+     | [RHar c], Some ("0" | "1" as t) ->
+         if c = (t = "1") then None
+         else Some (Printf.sprintf "har-body-capture model=%b real=%s" c t)
+     | _, _ -> None) in
+  if cap_bad <> None then VDisagree (match cap_bad with Some d -> sp d | None -> "") else
   let ce = header_get kCE m.m_hdrs in
   let text_bad =
     (match recs, List.assoc_opt "text" go with
@@ -184,7 +194,12 @@ let judge _name ins outs =
      | _, _ -> None) in
   (match dec_bad with Some d -> VDisagree (sp d) | None ->
   let rp_bad =
-    if wf_b m && full_expected then
+    (* parse_spec has no notion of "response that cannot carry a body" (answer
+       to HEAD, 1xx, 204, 304): Go's reader, given the request, does not look
+       for one.  Those messages are compared through the oracle only. *)
+    let bodyless = List.exists (fun t -> t = "QHEAD" || t = "S204" || t = "S304"
+                                         || (String.length t = 4 && t.[0] = 'S' && t.[1] = '1')) ins in
+    if wf_b m && full_expected && not bodyless then
       (match model_reparse lg m, reparse_obs with
        | Some pm, Some po ->
            let c = function Some x -> Some (canon x) | None -> None in
